@@ -847,6 +847,20 @@ def container_method(eng, st, recv, name, pos, kw):
         if name == "copy":
             st2, out = alloc_set(st, rec["kkind"], dom=rec["dom"])
             return [("ok", st2, out)]
+        if name == "difference" and len(pos) == 1 and isinstance(pos[0], VObj) and pos[0].kind == "set" and not rec.get("lazy"):
+            # s.difference(t) with a SET argument: a NEW set, pointwise `in s and not in t` (neither operand changes)
+            orec = st.objs[pos[0].oid]
+            if orec.get("lazy"):
+                st2, out = alloc_set(st, rec["kkind"], dom=rec["dom"])
+                return [("ok", st2, out)]
+            if orec["dom"].sort() != rec["dom"].sort():
+                raise Unsupported("set.difference of sets of different element kinds")
+            newdom = fresh("setdiff", rec["dom"].sort())
+            k = z3.Const(fresh_name("dk"), rec["dom"].sort().domain())
+            ax = FA([k], z3.Select(newdom, k) == z3.And(z3.Select(rec["dom"], k), z3.Not(z3.Select(orec["dom"], k))),
+                    patterns=[z3.Select(newdom, k)])
+            st2, out = alloc_set(st.assume(ax), rec["kkind"], dom=newdom)
+            return [("ok", st2, out)]
         if name == "__contains__":
             return contains(eng, st, recv, pos[0])
     raise Unsupported(f"{recv.kind}.{name}")
